@@ -140,7 +140,7 @@ def fixed_cases():
 ALPHABET = [b"/", b"/", b"a", b"b", b"%41", b"%2F", b"%2f", b"%", b"%4", b"%zz", b"?", b"#", b":", b"//", b"@", b"[", b"]", b";",
             b"=", b"&", b"+", b"\xe9", b"\xff", b"%E9", b"%00", b"%25", b".", b"..", b"*", b"~", b"http:", b"1"]
 HNAMES = ["Foo", "foo", "FOO", "X-Bar", "x-bar", "Content-Type", "Content-Length", "Accept", "X_Us", "Host", "A", "a",
-          "Content_Type", "Content_Length", "Script-Name", "X-Us", "content_type"]
+          "Content_Type", "Content_Length", "Script-Name", "X-Us", "content_type", "X.Bar", "X~Bar", "X.Us", "Content.Type"]
 HVALS = [" 1", " 2", "3", "", " a,b", " \xe9", " x y ", "\t t\t", " 0", " 12", " AbC", " \xc9\xe9", "\x0bq\xa0"]
 
 
